@@ -19,7 +19,7 @@ pub fn def() -> PropDef {
             "Wsr_Zero", "Wsr_Equal", "Wsr_Extend", "Wsr_RoundAtLead", "Wsr_RoundLeftOfLead", "Wsr_RoundInside", "Wsr_Carry", "Wsr_CarryNewDigit",
             "WithScale_Zero", "WithScale_Up", "WithScale_Down", "WithScale_Equal",
         ],
-        rule: "exhaustive small scope: every unscaled value |n| < N (N = 10^4 quick, 10^5 thorough; zero included, both signs) x scale -3..8 x every target scale within 4 of either end of the digit string x 7 modes, judged by an independent i128 model (result scale exact, integer = prescribed neighbour, extension exact, with_scale == Down, round(n) == default mode); all 4200 arguments of round_pair and round_u32 at positions 1..8; exhaustive machine-word boundaries: 192 unscaled integers +-(2^k + d), +-(10^k + d), floor(2^64/10^j) + d, 2^64 - 10^19 + d x scales 0, 5, 19, 20 x 0..23 dropped places x 7 modes; seeded decimals up to 3000 digits with tie / near-tie tails, all-nines carries, targets left of the leading digit, zeros. distinct = distinct (value, scale, target, mode) tuples (enumerated ones are distinct by construction); non-trivial = target scale below the input scale of a non-zero value (digits are actually discarded)",
+        rule: "exhaustive small scope: every unscaled value |n| < N (N = 10^4 quick, 10^5 thorough; zero included, both signs) x scale -3..8 x every target scale within 4 of either end of the digit string x 7 modes, judged by an independent i128 model (result scale exact, integer = prescribed neighbour, extension exact, with_scale == Down, round(n) == default mode); all 4200 arguments of round_pair and round_u32 at positions 1..8; exhaustive machine-word boundaries: 192 unscaled integers +-(2^k + d), +-(10^k + d), floor(2^64/10^j) + d, 2^64 - 10^19 + d x scales 0, 5, 19, 20 x 0..23 dropped places x 7 modes; sticky-information family: discarded tails that start with 5 or 0 and continue with up to 1200 arbitrary digits (random, one digit repeated 2^j times, a single non-zero digit far down, all zeros); seeded decimals up to 3000 digits with tie / near-tie tails, all-nines carries, targets left of the leading digit, zeros. distinct = distinct (value, scale, target, mode) tuples (enumerated ones are distinct by construction); non-trivial = target scale below the input scale of a non-zero value (digits are actually discarded)",
     }
 }
 
@@ -35,6 +35,7 @@ fn plan(tier: Tier) -> Vec<Unit> {
             v.push(Unit { kind: "pair-table", start: 0, count: 1, param: 0 });
             v.extend(crate::util::split_budget("random", 300_000, 3_000));
             v.extend(crate::util::split_budget("words", gen::word_values().len() as u64, 8));
+            v.extend(crate::util::split_budget("sticky", 100_000, 2_000));
             v
         }
         Tier::Thorough => {
@@ -42,6 +43,7 @@ fn plan(tier: Tier) -> Vec<Unit> {
             v.push(Unit { kind: "pair-table", start: 0, count: 1, param: 0 });
             v.extend(crate::util::split_budget("random", 60_000_000, 20_000));
             v.extend(crate::util::split_budget("words", gen::word_values().len() as u64, 8));
+            v.extend(crate::util::split_budget("sticky", 10_000_000, 10_000));
             v
         }
         Tier::Miri => {
@@ -258,6 +260,33 @@ fn run_unit(unit: &Unit, r: &mut Rng, ctx: &mut Ctx) {
             }
             if unit.start == 0 {
                 ctx.exhaustive_notes.push(format!("C06 word boundaries: {} unscaled integers +-(2^k + d), +-(10^k + d), floor(2^64/10^j) + d, 2^64 - 10^19 + d (d in -1..1) x scales 0, 5, 19, 20 x 0..23 dropped places x 7 modes", w.len()));
+            }
+        }
+        "sticky" => {
+            // the discarded tail starts with 5 or 0 and goes on with a long run of arbitrary digits: whether ANY of
+            // them is non-zero decides ties and the directed modes.  Tails of random digits, of one digit repeated
+            // 2^j times (8 x 32, 4 x 64, 2 x 128, 1 x 256: digit sums that are multiples of 256), of a single non-zero
+            // digit hundreds of places down, and all zeros (a true tie / an exact value)
+            for _ in 0..unit.count {
+                let hl = 1 + r.below(12) as usize;
+                let head = gen::digit_string(r, hl);
+                let first = match r.below(4) { 0 | 1 => '5', 2 => '0', _ => (b'0' + r.below(10) as u8) as char };
+                let tl = match r.below(3) { 0 => 1 + r.below(40) as usize, 1 => 20 + r.below(300) as usize, _ => 1 + r.below(1200) as usize };
+                let tail: String = match r.below(6) {
+                    0 => (0..tl).map(|_| (b'0' + r.below(10) as u8) as char).collect(),
+                    1 => { let d = *r.pick(&['1', '2', '4', '8']); let n = *r.pick(&[16usize, 32, 64, 128, 256, 512]); std::iter::repeat(d).take(n).collect() }
+                    2 => { let mut t = "0".repeat(tl); let at = r.below(tl as u64) as usize; t.replace_range(at..at + 1, &((b'1' + r.below(9) as u8) as char).to_string()); t }
+                    3 => "0".repeat(tl),
+                    4 => { let d = (b'1' + r.below(9) as u8) as char; let n = 1 + r.below(600) as usize; let mut t: String = std::iter::repeat(d).take(n).collect(); t.push_str(&"0".repeat(r.below(5) as usize)); t }
+                    _ => gen::digit_string(r, tl),
+                };
+                let n: BigInt = format!("{}{}{}", head, first, tail).parse().unwrap();
+                let s = r.range(-20, 40) + 1 + tail.len() as i64;
+                let d = Dec::new(if r.bool() { -n } else { n }, s);
+                let t = s - 1 - tail.len() as i64;
+                let mode = *r.pick(&MODES);
+                let case = Case::new("wsr").push(d.tok()).push(t).push(mode_name(mode));
+                check_case(&case, ctx);
             }
         }
         "random" => {
